@@ -172,7 +172,9 @@ func (h3) Gen(prop, tier string, r *simrt.Rng) (any, simrt.Config) {
 			case k < 7:
 				c.SeqOps = append(c.SeqOps, H3Op{Kind: 0, Result: simrt.Pick(r, 0, 0, 0, 1, 1, 2), Ns: genDurNs(r)})
 			case k < 9:
-				c.SeqOps = append(c.SeqOps, H3Op{Kind: 1, Ns: int64(time.Second)})
+				// the reporting period handed to Snapshot is the caller's business (1 s, 10 s, 30 s, 1 min in f1, and back
+				// to 1 s after a restart): the figures do not depend on it
+				c.SeqOps = append(c.SeqOps, H3Op{Kind: 1, Ns: int64(simrt.Pick(r, 1, 1, 1, 10, 30, 60)) * int64(time.Second)})
 			default:
 				c.SeqOps = append(c.SeqOps, H3Op{Kind: 2})
 			}
